@@ -1,6 +1,7 @@
 package sim
 
 import (
+	"errors"
 	"fmt"
 	"strings"
 
@@ -11,18 +12,19 @@ import (
 type FaultKind int
 
 const (
-	FNone     FaultKind = iota
-	FGoErr              // returns a plain Go error
-	FUgoErr             // returns a *ugo.Error
-	FPanicStr           // panics with a string
-	FPanicErr           // panics with an error value
-	FPanicRT            // a real runtime.Error (nil map write / index out of range)
-	FPanicObj           // panics with a custom struct
+	FNone        FaultKind = iota
+	FGoErr                 // returns a plain Go error
+	FUgoErr                // returns a *ugo.Error
+	FPanicStr              // panics with a string
+	FPanicErr              // panics with an error value
+	FPanicRT               // a real runtime.Error (nil map write / index out of range)
+	FPanicObj              // panics with a custom struct
+	FPanicNilErr           // panics with a typed-nil error pointer whose Error method dereferences it
 	numFaultKinds
 )
 
 func (k FaultKind) String() string {
-	return [...]string{"none", "go-error", "ugo-error", "panic-string", "panic-error", "panic-runtime", "panic-struct"}[k]
+	return [...]string{"none", "go-error", "ugo-error", "panic-string", "panic-error", "panic-runtime", "panic-struct", "panic-typed-nil-error"}[k]
 }
 
 // IsPanic reports whether the kind is a Go panic.
@@ -104,15 +106,16 @@ type World struct {
 func NewWorld(spec *WorldSpec, rc *RunCtx) *World {
 	w := &World{Spec: spec, occ: map[int]int{}, chooseN: map[int]int{}, RC: rc}
 	w.Globals = ugo.Map{
-		"log":     &ugo.Function{Name: "log", ValueEx: w.fnLog},
-		"op":      &ugo.Function{Name: "op", ValueEx: w.fnOp},
-		"choose":  &ugo.Function{Name: "choose", ValueEx: w.fnChoose},
-		"call":    &ugo.Function{Name: "call", ValueEx: w.fnCall},
-		"trace":   &ugo.Function{Name: "trace", ValueEx: w.fnTrace},
-		"obj":     &ugo.Function{Name: "obj", ValueEx: w.fnObj},
-		"callrep": &ugo.Function{Name: "callrep", ValueEx: w.fnCallRep},
-		"syncmap": &ugo.Function{Name: "syncmap", ValueEx: w.fnSyncMap},
-		"WID":     ugo.String(spec.Name),
+		"log":      &ugo.Function{Name: "log", ValueEx: w.fnLog},
+		"op":       &ugo.Function{Name: "op", ValueEx: w.fnOp},
+		"choose":   &ugo.Function{Name: "choose", ValueEx: w.fnChoose},
+		"call":     &ugo.Function{Name: "call", ValueEx: w.fnCall},
+		"trace":    &ugo.Function{Name: "trace", ValueEx: w.fnTrace},
+		"obj":      &ugo.Function{Name: "obj", ValueEx: w.fnObj},
+		"callrep":  &ugo.Function{Name: "callrep", ValueEx: w.fnCallRep},
+		"syncmap":  &ugo.Function{Name: "syncmap", ValueEx: w.fnSyncMap},
+		"calleach": &ugo.Function{Name: "calleach", ValueEx: w.fnCallEach},
+		"WID":      ugo.String(spec.Name),
 	}
 	return w
 }
@@ -246,6 +249,48 @@ func (w *World) fnCall(c ugo.Call) (ugo.Object, error) {
 	return ret, nil
 }
 
+// fnCallEach invokes a one-parameter script function once per item on ONE Invoker handle and tolerates per-item
+// errors (records "err" and goes on), like a host that processes a batch.
+func (w *World) fnCallEach(c ugo.Call) (ugo.Object, error) {
+	if c.Len() < 1 {
+		return nil, ugo.ErrWrongNumArguments.NewError("calleach wants a function")
+	}
+	k := w.calls
+	w.calls++
+	pooled := false
+	if k < len(w.Spec.Pooled) {
+		pooled = w.Spec.Pooled[k]
+	}
+	inv := ugo.NewInvoker(c.VM(), c.Get(0))
+	if pooled {
+		inv.Acquire()
+		defer inv.Release()
+	}
+	out := make(ugo.Array, 0, c.Len()-1)
+	nerr := 0
+	for i := 1; i < c.Len(); i++ {
+		args := w.argBuffer()
+		args = append(args, c.Get(i))
+		r, err := inv.Invoke(args...)
+		w.argRelease()
+		if err != nil {
+			if errors.Is(err, ugo.ErrVMAborted) {
+				return nil, err
+			}
+			nerr++
+			out = append(out, ugo.String("err"))
+			continue
+		}
+		out = append(out, r)
+	}
+	if nerr > 0 {
+		w.CallErrs = append(w.CallErrs, "item-errors")
+	} else {
+		w.CallErrs = append(w.CallErrs, "ok")
+	}
+	return out, nil
+}
+
 // argBuffer hands out the (re-used) argument buffer of the current nesting level.
 func (w *World) argBuffer() []ugo.Object {
 	if w.argDepth >= len(w.argBufs) {
@@ -367,4 +412,4 @@ const Prelude = "global (log, op, choose, call, trace, WID)\n"
 const PreludeObj = "global (log, op, choose, call, trace, WID, obj, syncmap)\n"
 
 // PreludeCall additionally declares callrep.
-const PreludeCall = "global (log, op, choose, call, trace, WID, callrep)\n"
+const PreludeCall = "global (log, op, choose, call, trace, WID, callrep, calleach)\n"
